@@ -68,7 +68,11 @@ def mk_types():
     add('golomb', [Tok(k, k, None, vals, G.ENC[k]) for k, vals in (('ue', [0, 6]), ('se', [-3, 2]), ('uie', [4, 0]), ('sie', [1, -5]))])
     add('struct-multi', [Tok('struct', s, nb, vals, enc, norm=None) for s, nb, vals, enc in (
         ('>2h', 32, [(1, -2), (300, 7)], lambda v: ib(v[0], 16) + ib(v[1], 16)), ('<bH', 24, [(-1, 513), (5, 1)], lambda v: ib(v[0], 8) + rev(ib(v[1], 16))),
-        ('=2B', 16, [(1, 255), (0, 9)], lambda v: ib(v[0], 8) + ib(v[1], 8)), ('>qb', 72, [(-1, 3), (2 ** 40, -8)], lambda v: ib(v[0], 64) + ib(v[1], 8)))])
+        ('=2B', 16, [(1, 255), (0, 9)], lambda v: ib(v[0], 8) + ib(v[1], 8)), ('>qb', 72, [(-1, 3), (2 ** 40, -8)], lambda v: ib(v[0], 64) + ib(v[1], 8)),
+        # a counted code followed by an uncounted one (the count must not carry over), a zero count, counts on both
+        ('>2hB', 40, [(1, -2, 3), (300, 7, 255)], lambda v: ib(v[0], 16) + ib(v[1], 16) + ib(v[2], 8)), ('<0qH', 16, [(513,), (1,)], lambda v: rev(ib(v[0], 16))),
+        ('>3bH', 40, [(1, -2, 3, 513), (0, 0, -1, 65535)], lambda v: ib(v[0], 8) + ib(v[1], 8) + ib(v[2], 8) + ib(v[3], 16)),
+        ('<h2B', 32, [(-2, 1, 2), (258, 0, 255)], lambda v: rev(ib(v[0], 16)) + ib(v[1], 8) + ib(v[2], 8)), ('>2b2H', 48, [(1, 2, 3, 4), (-1, -128, 65535, 256)], lambda v: ib(v[0], 8) + ib(v[1], 8) + ib(v[2], 16) + ib(v[3], 16)))])
     add('literal', [Tok('literal', s, len(b), [None], (lambda b: lambda v: b)(b), takes_value=False, unpackable=False) for s, b in (('0xa5', '10100101'), ('0b101', '101'), ('0o17', '001111'), ('0XfF', '11111111'))])
     add('embedded', [Tok('embedded', s, len(b), [None], (lambda b: lambda v: b)(b), takes_value=False, unpackable=False, embed=(us, uv)) for s, b, us, uv in (
         ('uint:8=37', ib(37, 8), 'uint:8', 37), ('hex:8=a5', '10100101', 'hex:8', 'a5'), ('bool=True', '1', 'bool', True), ('ue=5', G.enc_ue(5), 'ue', 5),
@@ -348,6 +352,16 @@ def groups(bs, acc):
                     check_format(bs, acc, [('group', 2, [('tok', a), ('group', k, [('tok', b)])])], (0, 1, 1), full=True)
                     check_format(bs, acc, [('group', k, [('mult', 2, a), ('tok', b)])], (1, 0, 1), full=False)
                     check_format(bs, acc, [('group', 1, [('group', k, [('tok', a), ('group', 2, [('tok', b)])])])], (1, 1, 0), full=False)
+    # sibling groups: two or more bracketed groups side by side, inside a bracket and at top level
+    for a, b, c in itertools.product(atoms[:4], atoms[:4], atoms[:3]):
+        check_format(bs, acc, [('group', 2, [('tok', a), ('group', 2, [('tok', b)]), ('group', 3, [('tok', c)])])], (0, 1, 1), full=False)
+        check_format(bs, acc, [('group', 1, [('group', 2, [('tok', a)]), ('group', 2, [('tok', b)]), ('tok', c)])], (1, 0, 1), full=False)
+        check_format(bs, acc, [('group', 2, [('tok', a)]), ('group', 3, [('tok', b)]), ('group', 0, [('tok', c)]), ('tok', a)], (1, 1, 0), full=False)
+        check_format(bs, acc, [('group', 1, [('tok', a), ('group', 1, [('tok', b)]), ('group', 1, [('group', 2, [('tok', c)])])])], (0, 0, 1), full=False)
+    for sm in TYPES[TYPE_INDEX['struct-multi']][1]:
+        for k in (0, 1, 2, 3):
+            check_format(bs, acc, [('mult', k, sm), ('tok', atoms[0])], (1, 0, 1), full=False)
+            check_format(bs, acc, [('group', k, [('tok', sm), ('tok', atoms[2])])], (0, 1, 1), full=False)
     # multi-digit factors; nesting where the inner group comes first; whitespace around '*' and '('
     for a, b in itertools.product(atoms[:5], atoms[:5]):
         for ko, ki in ((10, 2), (12, 10), (3, 2), (2, 11), (10, 10)):
